@@ -150,6 +150,33 @@ def sign_sequence(W, ev, signer_path, live=None):
     return out
 
 
+def queue_roles(ctx, W):
+    """How a queued request is laid out: {"nonce": field, "addr": field} where field is the tuple position ("0"/"1") or, when the queue holds a
+    small struct, the field name.  Read off the pushes onto Responder.requests (the component built from a SocketAddr value is the address)."""
+    P = ctx.prog
+    roles = None
+    for fn in P.fns.values():
+        if fn.impl_self != RESPONDER or fn.derived:
+            continue
+        e = W.ev(fn.path)
+        for bb, t in fn.calls():
+            if callee_name(t["fn"].get("path", "")) != "push":
+                continue
+            a = e.call_args(bb)
+            if a[0] != ("field", ("param", fn.path, 1), "requests") or a[1][0] != "agg" or len(a[1][2]) != 2:
+                continue
+            names = a[1][3] if len(a[1]) > 3 and a[1][3] else ("0", "1")
+            r = {}
+            for nm, x in zip(names, a[1][2]):
+                ty = fn.locals[x[2]]["ty"] if isinstance(x, tuple) and x[0] == "param" and x[1] == fn.path else ""
+                r["addr" if "SocketAddr" in ty else "nonce"] = str(nm)
+            if len(r) == 2:
+                if roles is not None and roles != r:
+                    return {"nonce": "0", "addr": "1"}
+                roles = r
+    return roles or {"nonce": "0", "addr": "1"}
+
+
 def version_assume(fnpath, v, field="version"):
     return {("field", ("param", fnpath, 1), field): ("enum", VERSION, v)}
 
@@ -192,7 +219,8 @@ def send_loop_provenance(ctx, W):
     ie_idx = iter_elem(W, idx_a) if idx_a is not None else None
     ie_nonce = iter_elem(W, nonce_a) if nonce_a is not None else None
     okidx = ie_idx is not None and ie_idx["what"] == "index" and ie_idx["container"] == REQ
-    okn = ie_nonce is not None and ie_nonce["what"] == "elem" and ie_nonce["fields"] == ("0",) and ie_nonce["container"] == REQ
+    QR = queue_roles(ctx, W)
+    okn = ie_nonce is not None and ie_nonce["what"] == "elem" and ie_nonce["fields"] == (QR["nonce"],) and ie_nonce["container"] == REQ
     same = okidx and okn and ie_idx["site"] == ie_nonce["site"]
     out.append(("index-and-nonce-from-one-element", same, "idx and nonce come from the same requests.iter().enumerate().next() element",
                 "idx (%s) and nonce (%s) are not the index and first component of one element of self.requests" % (values.fmt(idx_a), values.fmt(nonce_a)), sr.loc(sites[0])))
@@ -209,7 +237,7 @@ def send_loop_provenance(ctx, W):
     for sb in sends:
         sargs = [W.expand(a) for a in sev.call_args(sb)]
         ie = iter_elem(W, sargs[2])
-        okd = ie is not None and ie["what"] == "elem" and ie["fields"] == ("1",) and ie_nonce is not None and ie["site"] == ie_nonce["site"] and ie["container"] == REQ
+        okd = ie is not None and ie["what"] == "elem" and ie["fields"] == (QR["addr"],) and ie_nonce is not None and ie["site"] == ie_nonce["site"] and ie["container"] == REQ
         out.append(("destination-from-same-element", okd, "destination = address of the same queued request",
                     "send_to destination %s is not the address stored with this request" % values.fmt(sargs[2]), sr.loc(sb)))
         # payload derives from this iteration's make_response
